@@ -6,3 +6,4 @@ open Cst.C05
 #print axioms one_element_per_slot
 #print axioms completion_reads_slot
 #print axioms loser_net_zero
+#print axioms slot_protocol_facts
